@@ -21,7 +21,7 @@ Step(q) ==
   CASE q.k = "rows" -> [rows |-> Rows(q.fmt, q.tier, q.seed)]
     [] q.k = "judge" ->
          LET j == Judge(q) IN
-         [verdict |-> j.verdict, ok |-> j.ok, failing |-> j.failing, dom |-> j.dom, vdom |-> j.vdom, kdom |-> j.kdom, allowed |-> j.allowed,
+         [verdict |-> j.verdict, ok |-> j.ok, failing |-> j.failing, dom |-> j.dom, vdom |-> j.vdom, kdom |-> j.kdom, ldom |-> j.ldom, allowed |-> j.allowed,
           focus |-> j.focus, impl |-> j.impl, id_equal |-> j.id_equal, id_obliged |-> j.id_obliged,
           agrees |-> j.agrees, by_value |-> j.by_value, by_key |-> j.by_key,
           member |-> (q.vc = "absent" \/ q.feat \in VCTable[q.vc])]
